@@ -35,7 +35,7 @@ Log(a) == hist' = IF Record THEN Append(hist, a @@ Post) ELSE hist
 MCInit ==
   /\ cfg = [limit |-> CLimit, lpa |-> CLimitPerAccount, lifetime |-> CLifetime, identity |-> CIdentityCheck]
   /\ txs = TxDef /\ objs = << >> /\ byHash = << >> /\ byID = << >> /\ quota = << >> /\ cost = << >>
-  /\ pub = <<>> /\ head = Heads[1] /\ blocked = {} /\ tick = [seen |-> Heads[1].num, added |-> FALSE]
+  /\ pub = <<>> /\ head = Heads[1] /\ blocked = {} /\ tick = [seen |-> Heads[1].id, added |-> FALSE]
   /\ w = WIdle /\ lastDrop = NoDrop /\ hidx = 1 /\ hist = <<>>
 
 EvalHeads == IF StaleEval /\ hidx > 1 THEN {Heads[hidx], Heads[hidx - 1]} ELSE {Heads[hidx]}
@@ -57,7 +57,7 @@ MCNext ==
      \/ TickIdle /\ UNCHANGED hidx /\ Log([a |-> "TickIdle"])
      \/ \E order \in Pick(Orders) : WashStart(order, FALSE) /\ UNCHANGED hidx /\ Log([a |-> "WashStart", order |-> order])
      \/ \E ol \in BOOLEAN : /\ w.pc = "eval" /\ w.i <= Len(w.snap)
-                            /\ WashEval(ol, PrioOf(txs[objs[w.snap[w.i]].h], w.hd)) /\ UNCHANGED hidx
+                            /\ WashEval(ol, EvalPrio(w.snap[w.i])) /\ UNCHANGED hidx
                             /\ Log([a |-> "WashEval", o |-> w.snap[w.i], r |-> EvalOf(w.snap[w.i], ol)])
      \/ WashLimit /\ UNCHANGED hidx /\ Log([a |-> "WashLimit", ex |-> w'.ex, rm |-> w'.rm])
      \/ WashKeep /\ UNCHANGED hidx /\ Log([a |-> "WashKeep", o |-> w.ex[w.k]])
@@ -94,17 +94,17 @@ NeverPromoted == \A o \in DOMAIN objs : ~(objs[o].flag /\ objs[o].src = "fill")
 \*   h3  b pays 2940; block 2 contains it           h4  b's tx depending on h3's id
 \*   h5  a's tx expiring with block 2               h6 / h6b  one tx of a signed twice: delegator b / delegator c (same id)
 UTxAll ==
-  ("h1" :> [id |-> "i1", org |-> "a", dlg |-> "none", cost |-> 5040, costs |-> << >>, cap |-> <<0, 1200000, 0>>, prio |-> <<0, 1190000, 0>>, prio0 |-> <<0, 1200000, 0>>, ref |-> 0, exp |-> 100, dep |-> "none", typed |-> FALSE]) @@
-  ("h2" :> [id |-> "i2", org |-> "a", dlg |-> "b", cost |-> 2100, costs |-> << >>, cap |-> <<0, 1000000, 0>>, prio |-> <<0, 990000, 0>>, prio0 |-> <<0, 1000000, 0>>, ref |-> 3, exp |-> 100, dep |-> "none", typed |-> FALSE]) @@
-  ("h3" :> [id |-> "i3", org |-> "b", dlg |-> "none", cost |-> 2940, costs |-> << >>, cap |-> <<0, 1400000, 0>>, prio |-> <<0, 1390000, 0>>, prio0 |-> <<0, 1400000, 0>>, ref |-> 0, exp |-> 100, dep |-> "none", typed |-> FALSE]) @@
-  ("h4" :> [id |-> "i4", org |-> "b", dlg |-> "none", cost |-> 2100, costs |-> << >>, cap |-> <<0, 1000000, 0>>, prio |-> <<0, 990000, 0>>, prio0 |-> <<0, 1000000, 0>>, ref |-> 0, exp |-> 100, dep |-> "i3", typed |-> FALSE]) @@
-  ("h5" :> [id |-> "i5", org |-> "a", dlg |-> "none", cost |-> 2100, costs |-> << >>, cap |-> <<0, 1000000, 0>>, prio |-> <<0, 990000, 0>>, prio0 |-> <<0, 1000000, 0>>, ref |-> 1, exp |-> 1, dep |-> "none", typed |-> FALSE]) @@
-  ("h6" :> [id |-> "i6", org |-> "a", dlg |-> "b", cost |-> 2520, costs |-> << >>, cap |-> <<0, 1200000, 0>>, prio |-> <<0, 1190000, 0>>, prio0 |-> <<0, 1200000, 0>>, ref |-> 0, exp |-> 100, dep |-> "none", typed |-> FALSE]) @@
-  ("h6b" :> [id |-> "i6", org |-> "a", dlg |-> "c", cost |-> 2520, costs |-> << >>, cap |-> <<0, 1200000, 0>>, prio |-> <<0, 1190000, 0>>, prio0 |-> <<0, 1200000, 0>>, ref |-> 0, exp |-> 100, dep |-> "none", typed |-> FALSE])
+  ("h1" :> [id |-> "i1", org |-> "a", dlg |-> "none", cost |-> 5040, costs |-> << >>, cap |-> <<0, 1200000, 0>>, prios |-> << >>, priosnw |-> << >>, prio |-> <<0, 1190000, 0>>, prio0 |-> <<0, 1200000, 0>>, ref |-> 0, exp |-> 100, dep |-> "none", typed |-> FALSE]) @@
+  ("h2" :> [id |-> "i2", org |-> "a", dlg |-> "b", cost |-> 2100, costs |-> << >>, cap |-> <<0, 1000000, 0>>, prios |-> << >>, priosnw |-> << >>, prio |-> <<0, 990000, 0>>, prio0 |-> <<0, 1000000, 0>>, ref |-> 3, exp |-> 100, dep |-> "none", typed |-> FALSE]) @@
+  ("h3" :> [id |-> "i3", org |-> "b", dlg |-> "none", cost |-> 2940, costs |-> << >>, cap |-> <<0, 1400000, 0>>, prios |-> << >>, priosnw |-> << >>, prio |-> <<0, 1390000, 0>>, prio0 |-> <<0, 1400000, 0>>, ref |-> 0, exp |-> 100, dep |-> "none", typed |-> FALSE]) @@
+  ("h4" :> [id |-> "i4", org |-> "b", dlg |-> "none", cost |-> 2100, costs |-> << >>, cap |-> <<0, 1000000, 0>>, prios |-> << >>, priosnw |-> << >>, prio |-> <<0, 990000, 0>>, prio0 |-> <<0, 1000000, 0>>, ref |-> 0, exp |-> 100, dep |-> "i3", typed |-> FALSE]) @@
+  ("h5" :> [id |-> "i5", org |-> "a", dlg |-> "none", cost |-> 2100, costs |-> << >>, cap |-> <<0, 1000000, 0>>, prios |-> << >>, priosnw |-> << >>, prio |-> <<0, 990000, 0>>, prio0 |-> <<0, 1000000, 0>>, ref |-> 1, exp |-> 1, dep |-> "none", typed |-> FALSE]) @@
+  ("h6" :> [id |-> "i6", org |-> "a", dlg |-> "b", cost |-> 2520, costs |-> << >>, cap |-> <<0, 1200000, 0>>, prios |-> << >>, priosnw |-> << >>, prio |-> <<0, 1190000, 0>>, prio0 |-> <<0, 1200000, 0>>, ref |-> 0, exp |-> 100, dep |-> "none", typed |-> FALSE]) @@
+  ("h6b" :> [id |-> "i6", org |-> "a", dlg |-> "c", cost |-> 2520, costs |-> << >>, cap |-> <<0, 1200000, 0>>, prios |-> << >>, priosnw |-> << >>, prio |-> <<0, 1190000, 0>>, prio0 |-> <<0, 1200000, 0>>, ref |-> 0, exp |-> 100, dep |-> "none", typed |-> FALSE])
 UHeads == <<
-  [num |-> 1, incl |-> {}, rev |-> {}, energy |-> ("a" :> 7600) @@ ("b" :> 6000) @@ ("c" :> 3000), basefee |-> <<0, 10000, 0>>, bf |-> "10000000000000", gala |-> TRUE, synced |-> TRUE],
-  [num |-> 2, incl |-> {"i3"}, rev |-> {}, energy |-> ("a" :> 7600) @@ ("b" :> 3060) @@ ("c" :> 3000), basefee |-> <<0, 10000, 0>>, bf |-> "10000000000000", gala |-> TRUE, synced |-> TRUE],
-  [num |-> 3, incl |-> {"i3"}, rev |-> {}, energy |-> ("a" :> 7600) @@ ("b" :> 3060) @@ ("c" :> 3000), basefee |-> <<0, 10000, 0>>, bf |-> "10000000000000", gala |-> TRUE, synced |-> TRUE] >>
+  [id |-> "b0", num |-> 1, incl |-> {}, rev |-> {}, energy |-> ("a" :> 7600) @@ ("b" :> 6000) @@ ("c" :> 3000), basefee |-> <<0, 10000, 0>>, bf |-> "10000000000000", refresh |-> FALSE, gala |-> TRUE, synced |-> TRUE],
+  [id |-> "b1", num |-> 2, incl |-> {"i3"}, rev |-> {}, energy |-> ("a" :> 7600) @@ ("b" :> 3060) @@ ("c" :> 3000), basefee |-> <<0, 10000, 0>>, bf |-> "10000000000000", refresh |-> FALSE, gala |-> TRUE, synced |-> TRUE],
+  [id |-> "b2", num |-> 3, incl |-> {"i3"}, rev |-> {}, energy |-> ("a" :> 7600) @@ ("b" :> 3060) @@ ("c" :> 3000), basefee |-> <<0, 10000, 0>>, bf |-> "10000000000000", refresh |-> FALSE, gala |-> TRUE, synced |-> TRUE] >>
 Sub(S) == [h \in S |-> UTxAll[h]]
 Tx2 == Sub({"h1", "h2"})
 Tx3 == Sub({"h1", "h2", "h3"})
